@@ -526,7 +526,8 @@ func stlEncodeDoc(m stlModel, r *fw.Rand) []byte {
 			continue
 		}
 		c := m.Cues[k]
-		blk = append(blk, 0, byte(sn+1), byte((sn+1)>>8), 0xff, byte(r.Intn(4)))
+		// extension block number: 0xFF (last block of a subtitle) or any other value but 0xFE (user data): each is one cue
+		blk = append(blk, byte(r.Intn(3)), byte(sn+1), byte((sn+1)>>8), fw.Pick(r, []byte{0xff, 0xff, 0xff, 0x00, 0x01, 0xef, 0xfd}), byte(r.Intn(4)))
 		blk = append(blk, c.TCI[:]...)
 		blk = append(blk, c.TCO[:]...)
 		blk = append(blk, c.VP, c.JC, byte(r.Intn(2)))
